@@ -12,6 +12,7 @@ import (
 	"sync"
 	"sync/atomic"
 	"testing"
+	"time"
 
 	"github.com/anishathalye/porcupine"
 	"github.com/jirenius/go-res/store"
@@ -50,6 +51,9 @@ type Cfg struct {
 	OnChg  int    `json:"onchange"`
 	// OnChgFirst: the OnChange listeners are registered before the BeforeChange ones.
 	OnChgFirst bool `json:"onChgFirst,omitempty"`
+	// Aggregate: (badger) the first OnChange listener keeps a record of its own up to date: it
+	// writes to another id of the same store from inside the callback.
+	Aggregate bool `json:"aggregate,omitempty"`
 	// Late: the store has already been written to (a record created and deleted) when the
 	// listeners are registered.
 	Late bool `json:"late,omitempty"`
@@ -179,6 +183,9 @@ func newFixture(cfg Cfg) (*fixture, error) {
 	f := &fixture{cfg: cfg}
 	onChangeN := func(cb int) func(id string, before, after interface{}) {
 		return func(id string, before, after interface{}) {
+			if id == "aggregate-record" {
+				return // the listener's own record (see Cfg.Aggregate)
+			}
 			seen := ""
 			if bs, ok := f.st.(*badgerstore.Store); ok && cb == 0 {
 				// a listener may look at the store (Get takes no key lock): the mutation it is
@@ -190,6 +197,13 @@ func newFixture(cfg Cfg) (*fixture, error) {
 				}
 			} else {
 				seen = enc(after)
+			}
+			if bs, ok := f.st.(*badgerstore.Store); ok && cb == 0 && f.cfg.Aggregate && id != "aggregate-record" {
+				tx := bs.Write("aggregate-record")
+				if tx.Create(f.value(0)) != nil {
+					_ = tx.Update(f.value(14))
+				}
+				_ = tx.Close()
 			}
 			f.mu.Lock()
 			if seen != enc(after) && f.seenViol == "" {
@@ -521,6 +535,7 @@ func genCfg() *rapid.Generator[Cfg] {
 		c.OnChg = rapid.SampledFrom([]int{1, 1, 2, 0}).Draw(t, "onchange")
 		c.OnChgFirst = rapid.Bool().Draw(t, "onChgFirst")
 		c.Late = rapid.IntRange(0, 2).Draw(t, "late") == 0
+		c.Aggregate = rapid.IntRange(0, 3).Draw(t, "aggregate") == 0
 		return c
 	})
 }
@@ -544,10 +559,36 @@ func genCase() *rapid.Generator[Case] {
 	})
 }
 
+// watch runs f and gives up after a minute of real time (a case takes milliseconds): if a
+// goroutine is then waiting for a mutex inside the store package, that is reported as a
+// deadlock; otherwise the run is inconclusive.
+func watch(f func()) string {
+	done := make(chan struct{})
+	go func() { defer close(done); f() }()
+	select {
+	case <-done:
+		return ""
+	case <-time.After(time.Minute):
+	}
+	buf := make([]byte, 1<<20)
+	dump := string(buf[:runtime.Stack(buf, true)])
+	for _, g := range strings.Split(dump, "\n\n") {
+		if (strings.Contains(g, "sync.(*Mutex).Lock") || strings.Contains(g, "sync.(*RWMutex).")) && strings.Contains(g, "go-res/store/") {
+			return "the history did not finish within a minute of real time: a goroutine is waiting for a mutex inside the store (deadlock), e.g. a change listener that uses the store"
+		}
+	}
+	return "VERIF-INCONCLUSIVE: the history did not finish within a minute of real time"
+}
+
 func TestPropSequential(t *testing.T) {
 	rapid.Check(t, func(rt *rapid.T) {
 		c := genCase().Draw(rt, "case")
-		msg, failing, raw := runSequential(c)
+		var msg string
+		var failing int
+		var raw bool
+		if w := watch(func() { msg, failing, raw = runSequential(c) }); w != "" {
+			rt.Fatalf("%s\ncase: %s", w, c)
+		}
 		ev.Case(failing > 0 && raw, evid.Hash(c.String()), "sequential", "store-"+c.Cfg.Kind)
 		if msg != "" {
 			rt.Fatalf("%s\ncase: %s", msg, c)
@@ -570,6 +611,9 @@ type COp struct {
 type cInput struct {
 	K string
 	V string
+	// Veto: a BeforeChange listener refuses this value (create/update then fail and change
+	// nothing, unless they fail earlier because of the record's existence).
+	Veto bool
 }
 type cOutput struct {
 	OK  bool
@@ -589,10 +633,16 @@ var regModel = porcupine.Model{
 			if st != "" {
 				return !out.OK && out.Err == "dup", st
 			}
+			if in.Veto {
+				return !out.OK && out.Err == "other", st
+			}
 			return out.OK, in.V
 		case "update":
 			if st == "" {
 				return !out.OK && out.Err == "notfound", st
+			}
+			if in.Veto {
+				return !out.OK && out.Err == "other", st
 			}
 			return out.OK, in.V
 		case "delete":
@@ -653,7 +703,7 @@ func runConcurrent(cfg Cfg, progs [][]COp) (msg string, contended bool) {
 			defer wg.Done()
 			for _, op := range prog {
 				v := f.value(op.N + g*1000)
-				in := cInput{K: op.K, V: enc(v)}
+				in := cInput{K: op.K, V: enc(v), Veto: cfg.Vetoes > 0 && f.badger() && vetoed(v) && (op.K == "create" || op.K == "update")}
 				var out cOutput
 				call := atomic.AddInt64(&clock, 1)
 				var acquired, released int64
@@ -682,7 +732,10 @@ func runConcurrent(cfg Cfg, progs [][]COp) (msg string, contended bool) {
 						err = tx.Delete()
 					}
 					out = cOutput{OK: err == nil, Err: classify(err)}
-					if op.N%3 == 0 {
+					if op.N%3 == 0 || (err != nil && in.Veto) {
+						// (after a refused operation the transaction stays open for a while)
+						runtime.Gosched()
+						runtime.Gosched()
 						runtime.Gosched()
 					}
 					released = atomic.AddInt64(&clock, 1)
@@ -785,7 +838,6 @@ func runConcurrent(cfg Cfg, progs [][]COp) (msg string, contended bool) {
 func TestPropConcurrent(t *testing.T) {
 	rapid.Check(t, func(rt *rapid.T) {
 		cfg := genCfg().Draw(rt, "cfg")
-		cfg.Vetoes = 0
 		if cfg.Kind == "mock-newid" {
 			cfg.Kind = "mock"
 		}
@@ -801,7 +853,11 @@ func TestPropConcurrent(t *testing.T) {
 				})
 			}
 		}
-		msg, contended := runConcurrent(cfg, progs)
+		var msg string
+		var contended bool
+		if w := watch(func() { msg, contended = runConcurrent(cfg, progs) }); w != "" {
+			rt.Fatalf("%s\ncfg: %+v", w, cfg)
+		}
 		b, _ := json.Marshal(progs)
 		ev.Case(contended, evid.Hash(cfg, string(b)), "concurrent", "store-"+cfg.Kind)
 		if msg != "" {
